@@ -29,7 +29,8 @@ HARNESS_SRC = ["c12_pool.c", "sched/zv_sched.c"]
 # case generation
 
 class Case:
-    def __init__(self, threads, queue, progs, bodies, policy="r", seed=1, stay=50, sched="-", explore=None, maxruns=None):
+    def __init__(self, threads, queue, progs, bodies, policy="r", seed=1, stay=50, sched="-", explore=None, maxruns=None, fault=0):
+        self.fault = fault     # % of the steps (after the explicit schedule) whose wake choice is drawn non-zero = a failure point
         self.threads, self.queue, self.progs, self.bodies = threads, queue, progs, bodies
         self.policy, self.seed, self.stay, self.sched, self.explore, self.maxruns = policy, seed, stay, sched, explore, maxruns
 
@@ -43,7 +44,7 @@ class Case:
             "|".join(self.fmt_prog(b) for b in self.bodies) if self.bodies else "-")
 
     def line(self, cid):
-        s = "CASE id=%d %s policy=%s seed=%d stay=%d sched=%s" % (cid, self.config(), self.policy, self.seed, self.stay, self.sched)
+        s = "CASE id=%d %s policy=%s seed=%d stay=%d fault=%d sched=%s" % (cid, self.config(), self.policy, self.seed, self.stay, self.fault, self.sched)
         if self.explore is not None:
             s += " explore=%d maxruns=%d" % (self.explore, self.maxruns or 100000)
         return s
@@ -94,7 +95,9 @@ def gen_case(rng, max_threads=3, max_queue=2, max_clients=3, max_ops=5):
             total += 1
         progs.append(p)
     stay = rng.choice([0, 30, 60, 85])
-    return Case(threads, queue, progs, bodies, policy="r", seed=rng.getrandbits(40), stay=stay)
+    grows = any(o[0] == "r" and int(o[1:]) > threads for p in progs for o in p)
+    fault = rng.choice([0, 0, 25, 50]) if grows else 0      # allocation / pthread_create failure inside POOL_resize
+    return Case(threads, queue, progs, bodies, policy="r", seed=rng.getrandbits(40), stay=stay, fault=fault)
 
 
 def corpus():
@@ -130,6 +133,17 @@ def corpus():
     for th, q, progs, bodies in C:
         out.append(Case(th, q, progs, [list(b) for b in bodies]))
     return out
+
+
+def fault_corpus():
+    """POOL_resize beyond the capacity with an allocation / pthread_create failure at a scheduled point (round 2)."""
+    C = []
+    C.append((1, 1, [["a0", "r3", "a1", "j"]], [[]] * 2))
+    C.append((1, 0, [["r4", "a0", "a1", "r2", "t2", "r4", "j"]], [[]] * 3))                 # fail, shrink, grow again
+    C.append((2, 0, [["a0", "r4", "a1", "r1", "r4", "j"], ["t2", "r3"]], [[]] * 3))          # two resizers
+    C.append((1, 2, [["a0", "a1", "a2", "r3", "j"], ["r2", "a3"]], [[]] * 4))                # queued jobs wait for the new threads
+    C.append((1, 0, [["a0", "r3"]], [["a1"], []]))                                           # free right after a failed resize, a job posting
+    return [Case(th, q, progs, [list(b) for b in bodies]) for th, q, progs, bodies in C]
 
 
 # --------------------------------------------------------------------------
@@ -205,6 +219,10 @@ def parse_bad(ln):
 
 
 def oracle_key(b):
+    """Stable key of a finding (known_findings.json) - only when nothing else failed in the run."""
+    o = b.get("oracle") or ""
+    if o and all("POOL sizeof under-reports" in x for x in o.split("; ")):
+        return "C12-sizeof-after-failed-resize"
     return None
 
 
@@ -215,7 +233,7 @@ def report(ctx, runner, bads, tag):
     seen = set()
     parsed = [parse_bad(ln) for ln in bads]
     parsed.sort(key=lambda b: (0 if b.get("oracle") else 1, b.get("steps", 0)))   # concrete failures first, shortest first
-    have_concrete = any(b.get("oracle") for b in parsed)
+    have_concrete = any(b.get("oracle") and not oracle_key(b) for b in parsed)
     for b in parsed:
         if have_concrete and not b.get("oracle"):
             continue        # a concrete failing schedule is reported; pure model/implementation differences add nothing
@@ -229,7 +247,7 @@ def report(ctx, runner, bads, tag):
         replay = dict(kind="schedule", config=b["config"], sched=b["sched"], variant=runner.variant, tag=tag,
                       observed=dict(end=b["end"], oracle=b["oracle"], first_difference=b["diff"]))
         if b["oracle"]:
-            ctx.violation(replay, what="pool.c violates the property on a concrete schedule: %s (config %s)" % (b["oracle"], b["config"]))
+            ctx.violation(replay, what="pool.c violates the property on a concrete schedule: %s (config %s)" % (b["oracle"], b["config"]), key=oracle_key(b))
             continue
         # search: enumerate schedules of this configuration on the implementation, oracles only
         found = search_config(ctx, runner, b["config"])
@@ -276,11 +294,11 @@ def search_config(ctx, runner, config, bound=2, maxruns=20000, sweep=True):
 SHARED_SRC = ["c12_shared.c", "sched/zv_sched.c"]
 PRE = os.path.join(core.HARNESS, "sched", "zv_pthread.h")
 # with dictionaries: scenarios about what a job of an ABANDONED frame still reads (private pools too)
-SHARED_WITH_DICT = False
+SHARED_WITH_DICT = True
 
 SHARED_KEYS = [   # (substring of the oracle line, stable key)
     ("refThreadPool", "C12-refThreadPool-ignored-after-first-mt-frame"),
-    ("dictionary of a job", "C12-mt-job-dictionary-freed"),
+    ("abandoned session's jobs still run", "mt-abandoned-session-dict-freed"),
     ("use after free", "C12-sharedpool-free-midframe"),
     ("destroy of a locked", "C12-sharedpool-free-midframe"),
     ("write into freed memory", "C12-sharedpool-free-midframe"),
@@ -437,9 +455,9 @@ def shared_phase(ctx, rng):
     lines = []
     for pool, progs in shared_corpus():
         lines.append(shared_line(len(lines), pool, progs, "n", 1, 50))
-        for k in range(6 if ctx.quick else 40):
+        for k in range(4 if ctx.quick else 40):
             lines.append(shared_line(len(lines), pool, progs, "r", rng.getrandbits(40), rng.choice([0, 30, 60, 85])))
-    for i in range(250 if ctx.quick else 4000):
+    for i in range(160 if ctx.quick else 4000):
         pool, progs = gen_shared(rng)
         lines.append(shared_line(len(lines), pool, progs, rng.choice("rrrn"), rng.getrandbits(40), rng.choice([0, 30, 60, 85])))
     for ln in lines[:2]:
@@ -451,6 +469,27 @@ def shared_phase(ctx, rng):
     ctx.notes["shared_pool_runs"] = len(res)
     ctx.notes["shared_pool_steps"] = sum(r["steps"] for r in res)
     shared_report(ctx, res, "shared")
+
+
+def create_failures(ctx, runner):
+    """POOL_create_advanced with its k-th pthread_create / its n-th allocation failing (harness only, no model run)."""
+    lines = []
+    for th in (1, 2, 3):
+        for q in (0, 1, 2):
+            lines += ["FCASE threads=%d queue=%d cfail=%d afail=0" % (th, q, k) for k in range(1, th + 1)]
+            lines += ["FCASE threads=%d queue=%d cfail=0 afail=%d" % (th, q, k) for k in (1, 2, 3)]
+    p = subprocess.run([runner.h], input="\n".join(lines) + "\n", capture_output=True, text=True, timeout=300)
+    cur, n = None, 0
+    for ln in p.stdout.splitlines():
+        if ln.startswith("FCASE"):
+            cur = ln; n += 1
+            ctx.count(("create-failure", ln), nontrivial=True)
+        elif ln.startswith("O ") and cur:
+            ctx.violation(dict(kind="create-failure", case=cur, observed=ln[2:]), what="POOL_create_advanced with a failing allocation / pthread_create: %s (%s)" % (ln[2:], cur))
+            cur = None
+    if p.returncode != 0 or n != len(lines):
+        raise RuntimeError("C12: create-failure runs: rc=%d, %d of %d cases ran: %s" % (p.returncode, n, len(lines), p.stderr[-500:]))
+    ctx.notes["create_failure_cases"] = n
 
 
 def tally(ctx, oks):
@@ -501,6 +540,23 @@ def run(ctx):
     for c in cs[:3]:
         ctx.sample(c.line(0))
     report(ctx, runner, bads, "corpus")
+    if ctx.violations:
+        return
+    # 1b. round 2: allocation / pthread_create failures inside POOL_resize (failure point = wake choice of the resize step, so the
+    #     model follows), and inside POOL_create_advanced (no model: NULL, no leak, no thread left, then a clean creation)
+    cs = []
+    for c in fault_corpus():
+        cs.append(Case(c.threads, c.queue, c.progs, c.bodies, policy="n"))
+        for k in range(10 if ctx.quick else 60):
+            cs.append(Case(c.threads, c.queue, c.progs, c.bodies, policy="r", seed=rng.getrandbits(40), stay=rng.choice([0, 30, 60, 85]), fault=rng.choice([30, 60, 100])))
+    for prg in ([["r3", "a0", "j"]], [["a0", "r3"]], [["r2"], ["r3"]]):     # small enough for the search to exhaust every failure point
+        cs.append(Case(1, 0, prg, [[]], policy="n", explore=1, maxruns=4000))
+    oks, bads, xs, err = runner.run(cs, "fault")
+    tally(ctx, oks)
+    ctx.sample(cs[1].line(0))
+    report(ctx, runner, bads, "fault")
+    ctx.notes["fault_explore"] = xs[:8]
+    create_failures(ctx, runner)
     if ctx.violations:
         return
     # 2. seeded random configurations x random schedules
@@ -573,6 +629,17 @@ def run(ctx):
 def replay(ctx, runner):
     obj = json.load(open(ctx.replay_file))
     r = obj.get("replay", obj)
+    if r.get("kind") == "create-failure":
+        p = subprocess.run([runner.h], input=r["case"] + "\n", capture_output=True, text=True, timeout=120)
+        ctx.sample(r["case"]); ctx.count(("create-failure-replay", r["case"]))
+        for ln in p.stdout.splitlines():
+            if ln.startswith("O "):
+                ctx.violation(dict(kind="create-failure", case=r["case"], observed=ln[2:]), what="replay reproduces: " + ln[2:])
+        if not ctx.violations:
+            core.log("replay: the recorded case no longer fails")
+        ctx.prove()
+        ctx.proof_verdict(None)
+        return
     if r.get("kind") == "shared":
         exe = core.build_harness("c12_shared", SHARED_SRC, variant="o1", pre_include=PRE,
                                  lib_exclude=["pool.c", "zstdmt_compress.c"], extra_flags=["-w", "-DZV_MAXSTEPS=16384"])
